@@ -21,8 +21,8 @@ ActsCopy == {"construct", "assign", "meta", "copy", "copywith"}
 ActsAll == {"construct", "construct_bad", "assign", "delete", "meta", "metaassign", "copy", "copywith"}
 ActsCopyOnly == {"construct", "construct_first_only", "copy", "copywithdict"}
 ActsEq == {"construct", "assign", "meta_small", "copy", "copywith", "copywithdict"}
-ClsEq == {"CirclePix", "PolygonPix", "LinePix", "CircleSky", "RectanglePix", "PolygonSky"}
 ClsEqSmall == {"CirclePix", "PolygonPix", "CircleSky", "PolygonSky"}
+ClsEq == ClsEqSmall        \* (with the tolerance / frame-attribute / distance probes and the sky polygon the six-class instance no longer finishes in 50 minutes; FieldEq.tla covers every class)
 ClsSiblings == {"RectanglePix", "EllipseAnnulusSky"}
 NoDev == {}
 NoExtra == {}
